@@ -7,4 +7,5 @@ pub mod strat;
 pub mod libio;
 pub mod props;
 pub mod runner;
+pub mod sinkbed;
 pub mod spec;
